@@ -1,19 +1,1 @@
-// ---- prelude (list_core / edge_list_core only): assumed contracts on std, each restating the rustdoc ----
-
-// rustdoc Option::is_some_and: "Returns true if the option is a Some and the value inside of it matches a predicate."
-// (`f` is called exactly once, on the contained value, iff the option is Some; its result is returned.)
-pub assume_specification<T, F: FnOnce(T) -> bool> [Option::<T>::is_some_and] (o: Option<T>, f: F) -> (r: bool)
-    requires o is Some ==> f.requires((o->0,)),
-    ensures
-        o is None ==> !r,
-        o is Some ==> f.ensures((o->0,), r);
-
-// rustdoc Option::map_or_else: "Computes a default function result (if none), or applies a different function to the
-// contained value (if any)."
-pub assume_specification<T, U, D: FnOnce() -> U, F: FnOnce(T) -> U> [Option::<T>::map_or_else] (o: Option<T>, default: D, f: F) -> (r: U)
-    requires
-        o is None ==> default.requires(()),
-        o is Some ==> f.requires((o->0,)),
-    ensures
-        o is None ==> default.ensures((), r),
-        o is Some ==> f.ensures((o->0,), r);
+// (moved to prelude/std_contracts.rs: Option::is_some_and, Option::map_or_else)
